@@ -199,17 +199,15 @@ theorem listener_alias_sound (f : Flags) (hfix : f.aliasGuard = true) (m : Mesh)
 
 /-! ### completeness -/
 
-/-- **scope_complete**: on the repaired code, a mesh service that is visible to the proxy's
-    namespace (with a well-formed export set) and imported by a host entry of a port-unrestricted
-    egress listener is delivered - or displaced by the same-hostname tie-break, in which case the
-    delivered service has the same hostname and is itself a visible, imported mesh service. -/
-theorem scope_complete (f : Flags) (hfix : f.visGuard = true) (hx : f.exactGuard = true)
-    (m : Mesh) (svcs : List Svc) (vss : List VS) (sc : Option Sidecar) (cfgNs : String) (hns : ValidNs cfgNs)
+/-- **listener_complete**: a visible mesh service (well-formed export set) imported by the host list of a
+    port-unrestricted egress listener is among that listener's services, or displaced there by a
+    service with the same hostname (repaired exact-host path). -/
+theorem listener_complete (f : Flags) (hx : f.exactGuard = true)
+    (m : Mesh) (svcs : List Svc) (vss : List VS) (cfgNs : String) (hns : ValidNs cfgNs)
     (o : Svc) (ho : o ∈ svcs) (hv : isServiceVisible m o cfgNs = true) (hwf : ExportWF (serviceExportTo m o))
-    (l : Listener) (hl : l ∈ egressOf sc) (hmp : l.matchPort = none)
-    (himp : HostImports (parseHosts cfgNs l.hosts) o.ns o.hostname) (hvn : ∀ v ∈ vss, v.ns ≠ "*") :
-    ∃ w ∈ scopeServices f m svcs vss sc cfgNs, w.hostname = o.hostname ∧
-      ∃ o' ∈ svcs, w.core = o'.core ∧ isServiceVisible m o' cfgNs = true ∧ Imported m vss sc cfgNs o' := by
+    (l : Listener) (hmp : l.matchPort = none)
+    (himp : HostImports (parseHosts cfgNs l.hosts) o.ns o.hostname) :
+    ∃ w ∈ (convertListener f m svcs vss cfgNs l).services, w.hostname = o.hostname := by
   -- a candidate with the same hostname and namespace (alias-trimmed)
   obtain ⟨c0, hc0, hch0, hcn0⟩ := cands_complete (ps := parseHosts cfgNs l.hosts) ho hv hwf hns himp
   obtain ⟨tc, _⟩ := trim_core f.aliasGuard m svcs cfgNs c0
@@ -222,15 +220,26 @@ theorem scope_complete (f : Flags) (hfix : f.visGuard = true) (hx : f.exactGuard
   obtain ⟨c', hc', hcore⟩ := importOne_of_imports himp'
   -- the tie-break keeps the hostname
   obtain ⟨w, hw, hwh⟩ := selectServices_keeps_hostname (unified := f.unified) (cfgNs := cfgNs) hc hc'
+  refine ⟨w, ?_, by rw [hwh, core_hostname hcore, hch]⟩
+  simp only [convertListener, hmp, hx]; exact hw
+
+/-- **scope_complete**: on the repaired code, a mesh service that is visible to the proxy's
+    namespace (with a well-formed export set) and imported by a host entry of a port-unrestricted
+    egress listener is delivered - or displaced by the same-hostname tie-break, in which case the
+    delivered service has the same hostname and is itself a visible, imported mesh service. -/
+theorem scope_complete (f : Flags) (hfix : f.visGuard = true) (hx : f.exactGuard = true)
+    (m : Mesh) (svcs : List Svc) (vss : List VS) (sc : Option Sidecar) (cfgNs : String) (hns : ValidNs cfgNs)
+    (o : Svc) (ho : o ∈ svcs) (hv : isServiceVisible m o cfgNs = true) (hwf : ExportWF (serviceExportTo m o))
+    (l : Listener) (hl : l ∈ egressOf sc) (hmp : l.matchPort = none)
+    (himp : HostImports (parseHosts cfgNs l.hosts) o.ns o.hostname) (hvn : ∀ v ∈ vss, v.ns ≠ "*") :
+    ∃ w ∈ scopeServices f m svcs vss sc cfgNs, w.hostname = o.hostname ∧
+      ∃ o' ∈ svcs, w.core = o'.core ∧ isServiceVisible m o' cfgNs = true ∧ Imported m vss sc cfgNs o' := by
+  obtain ⟨w, hw', hwh⟩ := listener_complete f hx m svcs vss cfgNs hns o ho hv hwf l hmp himp
   -- the listener's services reach the scope
   have hilw : convertListener f m svcs vss cfgNs l ∈ scopeListeners f m svcs vss sc cfgNs :=
     List.mem_map.mpr ⟨l, hl, rfl⟩
-  have hw' : w ∈ (convertListener f m svcs vss cfgNs l).services := by
-    simp only [convertListener, hmp, hx]; exact hw
   obtain ⟨x, hxm, hxh⟩ := collect_hostnames f m svcs cfgNs _ [] _ hilw w hw'
-  refine ⟨x, hxm, ?_, ?_⟩
-  · rw [hxh, hwh, core_hostname hcore, hch]
-  · exact scope_sound f hfix m svcs vss sc cfgNs hvn x hxm
+  exact ⟨x, hxm, hxh.trans hwh, scope_sound f hfix m svcs vss sc cfgNs hvn x hxm⟩
 
 /-- if moreover no other visible mesh service carries the hostname, the service itself is delivered -/
 theorem scope_complete_unique (f : Flags) (hfix : f.visGuard = true) (hx : f.exactGuard = true)
